@@ -382,21 +382,81 @@ func checkC17(c *Ctx, r *Report) {
 	}
 	// every dependent is detached; every outgoing edge is removed
 	ruleEach(c, r, "C17.b", rmNode,
-		func(fi *FuncInfo) func(ast.Expr) bool { return identNamed("dependents") }, "dependents",
+		func(fi *FuncInfo) func(ast.Expr) bool { return w.rangeOverType(fi, "[]graphs.SymbolKey") }, "dependents",
 		func(fi *FuncInfo) func(ast.Node) bool { return w.callPred(fi, rmEdge) }, "RemoveEdge(fromKey, key, nil)", nil, false,
 		"the edge of every dependent to the removed node is removed - including dependents that are not (yet) nodes themselves")
 	ruleEach(c, r, "C17.b", rmNode,
-		func(fi *FuncInfo) func(ast.Expr) bool { return identNamed("outgoingEdges") }, "outgoingEdges",
+		func(fi *FuncInfo) func(ast.Expr) bool { return w.rangeOverType(fi, "[]graphs/symboldg.SymbolEdge") }, "outgoingEdges",
 		func(fi *FuncInfo) func(ast.Node) bool { return w.callPred(fi, rmEdge) }, "RemoveEdge(key, e.To, &e.Kind)", nil, false,
 		"every outgoing edge of the removed node is removed")
 	if fi := need(c, r, "C17.b", rmNode); fi != nil {
 		// the dependents snapshot is the full revDeps[id] set; the outgoing snapshot the full edges[id] map
 		viol := ""
 		var sites []string
-		for _, l := range []struct{ over, field string }{{"revs", "revDeps"}, {"inner", "edges"}} {
-			loops := w.rangeLoops(fi, identNamed(l.over))
+		info := fi.Pkg.TypesInfo
+		// originField: the struct field a map-typed expression is read from (g.F[k], or a
+		// local defined as `x, ok := g.F[k]` / `x := g.F[k]`)
+		var originField func(e ast.Expr, depth int) string
+		originField = func(e ast.Expr, depth int) string {
+			if depth > 4 {
+				return ""
+			}
+			switch x := ast.Unparen(e).(type) {
+			case *ast.IndexExpr:
+				if se, ok := ast.Unparen(x.X).(*ast.SelectorExpr); ok {
+					if sel := info.Selections[se]; sel != nil && sel.Kind() == types.FieldVal {
+						return sel.Obj().Name()
+					}
+				}
+			case *ast.Ident:
+				obj := info.ObjectOf(x)
+				origin := ""
+				ast.Inspect(fi.Decl.Body, func(n ast.Node) bool {
+					as, ok := n.(*ast.AssignStmt)
+					if !ok || len(as.Rhs) != 1 || len(as.Lhs) == 0 {
+						return true
+					}
+					if id, ok := as.Lhs[0].(*ast.Ident); ok && info.ObjectOf(id) == obj {
+						origin = originField(as.Rhs[0], depth+1)
+					}
+					return true
+				})
+				return origin
+			}
+			return ""
+		}
+		for _, field := range []string{"revDeps", "edges"} {
+			// idiom 1: slices.Collect(maps.Keys|Values(g.F[k])) - complete by construction
+			collected := false
+			ast.Inspect(fi.Decl.Body, func(n ast.Node) bool {
+				cl, ok := n.(*ast.CallExpr)
+				if !ok || len(cl.Args) != 1 || !strings.HasPrefix(calleeOfCall(info, cl), "slices.Collect") {
+					return true
+				}
+				inner, ok := ast.Unparen(cl.Args[0]).(*ast.CallExpr)
+				if !ok || len(inner.Args) != 1 {
+					return true
+				}
+				if k := calleeOfCall(info, inner); (strings.HasPrefix(k, "maps.Keys") || strings.HasPrefix(k, "maps.Values")) && originField(inner.Args[0], 0) == field {
+					collected = true
+					sites = append(sites, w.pos(cl.Pos()))
+				}
+				return true
+			})
+			if collected {
+				continue
+			}
+			// idiom 2: a range loop over g.F[k] that appends on every iteration
+			loops := w.rangeLoops(fi, func(e ast.Expr) bool {
+				t := info.TypeOf(e)
+				if t == nil {
+					return false
+				}
+				_, isMap := t.Underlying().(*types.Map)
+				return isMap && originField(e, 0) == field
+			})
 			if len(loops) != 1 {
-				viol = fmt.Sprintf("expected one snapshot loop over %s", l.over)
+				viol = fmt.Sprintf("expected one snapshot (range+append, or slices.Collect) of %s[id], found %d", field, len(loops))
 				continue
 			}
 			sites = append(sites, w.pos(loops[0].Pos()))
@@ -407,14 +467,10 @@ func checkC17(c *Ctx, r *Report) {
 					return false
 				}
 				cl, ok := as.Rhs[0].(*ast.CallExpr)
-				if !ok {
-					return false
-				}
-				id, ok := cl.Fun.(*ast.Ident)
-				return ok && id.Name == "append"
+				return ok && calleeOfCall(info, cl) == "builtin.append"
 			}, nil, false)
 			if v != "" {
-				viol = fmt.Sprintf("the %s snapshot skips entries: %s", l.field, v)
+				viol = fmt.Sprintf("the %s snapshot skips entries: %s", field, v)
 			}
 		}
 		// RemoveEdge calls in the dependents loop: (fromKey, key, nil); in the outgoing loop: (key, e.To, &e.Kind)
@@ -423,7 +479,7 @@ func checkC17(c *Ctx, r *Report) {
 			args := cl.Common().Args
 			isKey := func(v ssa.Value) bool {
 				p, ok := stripTrivial(v).(*ssa.Parameter)
-				return ok && p.Name() == "key"
+				return ok && len(fi.SSA.Params) == 2 && p == fi.SSA.Params[1]
 			}
 			k3, isNil := args[3].(*ssa.Const)
 			if isNil && k3.IsNil() {
@@ -544,6 +600,26 @@ func checkC17(c *Ctx, r *Report) {
 		var sites []string
 		n := 0
 		var stack []ast.Node
+		// the visited set: a local of a set-shaped map type (map[K]struct{} or map[K]bool)
+		isVisitedSet := func(e ast.Expr) bool {
+			id, ok := e.(*ast.Ident)
+			if !ok {
+				return false
+			}
+			v, ok := fi.Pkg.TypesInfo.ObjectOf(id).(*types.Var)
+			if !ok || v.IsField() || v.Pos() < fi.Decl.Pos() || v.Pos() > fi.Decl.End() {
+				return false
+			}
+			m, ok := v.Type().Underlying().(*types.Map)
+			if !ok {
+				return false
+			}
+			if st, ok := m.Elem().Underlying().(*types.Struct); ok && st.NumFields() == 0 {
+				return true
+			}
+			b, ok := m.Elem().Underlying().(*types.Basic)
+			return ok && b.Kind() == types.Bool
+		}
 		ast.Inspect(fi.Decl.Body, func(nd ast.Node) bool {
 			if nd == nil {
 				stack = stack[:len(stack)-1]
@@ -554,7 +630,7 @@ func checkC17(c *Ctx, r *Report) {
 			if !ok || len(as.Lhs) != 1 {
 				return true
 			}
-			if id, ok := as.Lhs[0].(*ast.Ident); ok && id.Name == "visited" && len(as.Rhs) == 1 {
+			if isVisitedSet(as.Lhs[0]) && len(as.Rhs) == 1 {
 				if cl, ok := as.Rhs[0].(*ast.CompositeLit); ok && len(cl.Elts) > 0 {
 					n++
 					sites = append(sites, w.pos(as.Pos()))
@@ -563,7 +639,7 @@ func checkC17(c *Ctx, r *Report) {
 				return true
 			}
 			ix, ok := as.Lhs[0].(*ast.IndexExpr)
-			if !ok || exprString(ix.X) != "visited" {
+			if !ok || !isVisitedSet(ix.X) {
 				return true
 			}
 			n++
